@@ -39,8 +39,8 @@ def mk_programs(sc, ops_lists):
     progs = []
     for i, ops in enumerate(ops_lists):
         progs.append({"id": "%s-%d" % (sc["name"], i), "cfg": sc_cfg(sc), "contents": sc["contents"], "algs": sc["algs"],
-                      "ntags": sc.get("ntags", 3), "repos": REPO_NAMES[:sc.get("nrepos", 2)], "seed": i,
-                      "tagstyle": sc.get("tagstyle", 0), "ops": ops})
+                      "ntags": sc.get("ntags", 3), "repos": sc.get("repos", REPO_NAMES)[:sc.get("nrepos", 2)], "seed": i,
+                      "tagstyle": sc.get("tagstyle", 0), "pre": sc.get("pre", ""), "sentinel": sc.get("sentinel", False), "ops": ops})
     return progs
 
 
@@ -85,11 +85,11 @@ def run_scenario(work, vh, prop, sc, tier, seed, focus):
     num = sc["num"][0 if tier == "quick" else 1]
     depth = sc["depth"][0 if tier == "quick" else 1]
     cat = vlib.catalogue(work, vh, sc["name"], sc["contents"], sc["algs"], seed, cfg=sc_cfg(sc),
-                         ntags=sc.get("ntags", 3), nrepos=sc.get("nrepos", 2))
+                         ntags=sc.get("ntags", 3), nrepos=sc.get("nrepos", 2), reconf=[dict(sc_cfg(sc), **r) for r in sc.get("reconf", [])])
     ops_lists, gen = vlib.generate(work, sc["name"], cat, sc["profile"], depth, num, seed, vlib.known_open_names())
     programs = mk_programs(sc, ops_lists)
     tf, events, dt = vlib.execute(work, vh, sc["name"], programs, sc["stores"], sc["obs"], seed)
-    v = vlib.validate(work, sc["name"], tf, focus)
+    v = vlib.validate(work, sc["name"], tf, sc.get("focus", focus))
     log("scenario %s: %d programs, %d events on %s, %d failing traces (gen %.1fs, exec %.1fs, tlc %.1fs)" % (
         sc["name"], len(programs), events, ",".join(sc["stores"]), len(v["fails"]), gen["wall"], dt, v["tlc"]["wall"]))
     try:
@@ -268,6 +268,10 @@ def c07(prop, tier, seed, work):
              stores=STORES3, obs=["refs", "filters"], mc_contents=["m1", "a1", "a2"], mc_depth=(4, 5), nrepos=1),
         dict(name="refsgc", profile="gcrefs", contents=["m1", "m2", "a1", "a2", "a3", "a4", "a7"], algs=["sha256"], depth=(24, 40), num=(12, 150),
              stores=["mem", "dir"], obs=["refs"], nrepos=1, cfg={"withSubj": True, "emptyRepo": False}),
+        dict(name="refspage1", profile="refs", contents=["m1", "a1", "a2", "a5", "a9"], algs=["sha256"], depth=(22, 36), num=(10, 120),
+             stores=["mem", "dir"], obs=["refs", "filters"], nrepos=1, cfg={"refLimit": 600}),
+        dict(name="refspage2", profile="refs", contents=["m1", "a1", "a2", "a5", "a9"], algs=["sha256"], depth=(22, 36), num=(10, 120),
+             stores=["mem", "dir"], obs=["refs", "filters"], nrepos=1, cfg={"refLimit": 950}),
         dict(name="refs512", profile="refs", contents=["m1", "a1", "a8", "a3"], algs=["sha256", "sha512"], depth=(20, 30), num=(10, 100),
              stores=["mem", "dir"], obs=["refs", "filters"], nrepos=2),
     ]
@@ -328,6 +332,52 @@ def c06(prop, tier, seed, work):
                      {"GC", "GCPass"})
 
 
+def c10(prop, tier, seed, work):
+    scs = [
+        dict(name="layout", profile="layout", contents=["m1", "m2", "x1", "a1", "b3"], algs=["sha256", "sha512"], depth=(26, 40), num=(25, 300),
+             stores=STORES3, obs=["refs", "disk", "sess"], cfg={"emptyRepo": True}, mc_contents=["m1"], mc_depth=(4, 5)),
+        dict(name="layout384", profile="layout", contents=["m1", "b3"], algs=["sha256", "sha384"], depth=(20, 30), num=(8, 80),
+             stores=["dir", "mem"], obs=["disk", "sess"], cfg={"emptyRepo": True}, repos=["a", "a/b"]),
+    ]
+    return histories(prop, tier, seed, work, scs, "", "a history is non-trivial if it restarts the server or runs a collection after at least one manifest push; distinct = distinct operation sequences",
+                     {"Restart", "GC"})
+
+
+RECONF = [
+    {"store": "dir", "readOnly": True},
+    {"store": "memdir"},
+    {"store": "dir", "push": False},
+    {"store": "dir", "delete": False},
+    {"store": "dir", "blobDelete": False},
+    {"store": "dir", "push": False, "delete": False, "readOnly": True},
+    {"store": "memdir", "delete": False, "blobDelete": False},
+    {"store": "dir"},
+]
+
+
+def c14(prop, tier, seed, work):
+    scs = [
+        dict(name="ro", profile="ro", contents=["m1", "m2", "x1", "a1"], algs=["sha256"], depth=(30, 44), num=(25, 300),
+             stores=["dir"], obs=["refs"], reconf=RECONF, nrepos=2),
+    ]
+    return histories(prop, tier, seed, work, scs, "", "a history is non-trivial if it reconfigures the server (read-only / memory over directory / APIs off) after pushes and then sends write requests; distinct = distinct operation sequences",
+                     {"Reconf"})
+
+
+def c16(prop, tier, seed, work):
+    scs = [
+        dict(name="iso", profile="iso", contents=["m1", "x4", "a1", "b3"], algs=["sha256"], depth=(26, 40), num=(25, 300),
+             stores=STORES3, obs=["refs", "sess"], nrepos=3, repos=["a", "a/b", "ab"], sentinel=True),
+        dict(name="iso2", profile="iso", contents=["m1", "b3"], algs=["sha256"], depth=(20, 30), num=(10, 100),
+             stores=["dir", "mem"], obs=["sess"], nrepos=3, repos=["x/y/z", "x/y", "x"], sentinel=True),
+    ]
+    return histories(prop, tier, seed, work, scs, "", "a history is non-trivial if it contains a cross repository mount or uses a session against another repository; distinct = distinct operation sequences",
+                     {"UpPost"})
+
+
+CHECKS["C10"] = c10
+CHECKS["C14"] = c14
+CHECKS["C16"] = c16
 CHECKS["C05"] = c05
 CHECKS["C06"] = c06
 
